@@ -44,7 +44,7 @@ static std::vector<CheckSpec> &specs() {
 	};
 	add("C13", "exploration", {{"async", "C13", 24000, 1500000}});
 	add("C14", "exploration", {{"async", "C14", 16000, 1000000}, {"world", "C14", 4000, 200000}});
-	add("C06", "exploration", {{"async", "C06", 12000, 600000}, {"world", "C06", 6000, 300000}});
+	add("C06", "exploration", {{"async", "C06", 12000, 600000}, {"world", "C06", 500, 40000}});
 	add("C15", "exploration", {{"ha", "C15", 12000, 800000}});
 	add("C07", "exploration", {{"world", "C07", 12000, 600000}});
 	add("C08", "exploration", {{"world", "C08", 10000, 500000}});
